@@ -30,6 +30,12 @@ pub fn load_corpus() -> Corpus {
 }
 
 pub const SNIPPETS: &[&str] = &[
+    // a long definition full of non-ASCII text that the rasn backend cannot translate (its warning quotes the definition)
+    // long definitions full of non-ASCII text that the rasn backend cannot translate (its warning quotes the value); three
+    // alignments, so that a byte-indexed cut of the message meets the inside of a character
+    "W1 ::= CHOICE { inner SEQUENCE { title UTF8String, body UTF8String }, other NULL }\nvw1 W1 ::= inner : { title \"x\", body \"これは非常に長い本文です。これは非常に長い本文です。これは非常に長い本文です。これは非常に長い本文です。これは非常に長い本文です。これは非常に長い本文です。これは非常に長い本文です。これは非常に長い本文です。これは非常に長い本文です。これは非常に長い本文です。これは非常に長い本文です。これは非常に長い本文です。これは非常に長い本文です。これは非常に長い本文です。\" }",
+    "W2 ::= CHOICE { inner SEQUENCE { title UTF8String, body UTF8String }, other NULL }\nvw2 W2 ::= inner : { title \"xy\", body \"これは非常に長い本文です。これは非常に長い本文です。これは非常に長い本文です。これは非常に長い本文です。これは非常に長い本文です。これは非常に長い本文です。これは非常に長い本文です。これは非常に長い本文です。これは非常に長い本文です。これは非常に長い本文です。これは非常に長い本文です。これは非常に長い本文です。これは非常に長い本文です。これは非常に長い本文です。\" }",
+    "W3 ::= CHOICE { inner SEQUENCE { title UTF8String, body UTF8String }, other NULL }\nvw3 W3 ::= inner : { title \"xyz\", body \"これは非常に長い本文です。これは非常に長い本文です。これは非常に長い本文です。これは非常に長い本文です。これは非常に長い本文です。これは非常に長い本文です。これは非常に長い本文です。これは非常に長い本文です。これは非常に長い本文です。これは非常に長い本文です。これは非常に長い本文です。これは非常に長い本文です。これは非常に長い本文です。これは非常に長い本文です。\" }",
     "P1 { T } ::= SEQUENCE { v T, next P1 { T } OPTIONAL }",
     "X1 ::= P1 { INTEGER }",
     "P2 { INTEGER: n } ::= SEQUENCE { v INTEGER (0..n), sub SEQUENCE OF P2 { n } }",
@@ -43,6 +49,8 @@ pub const SNIPPETS: &[&str] = &[
     "o3 C2 ::= { INTEGER ID 1 }",
     "S6 C2 ::= { o3 }",
     "U7 ::= SEQUENCE { id C2.&id ({S6}), v C2.&Type-Field ({S6}{@id}) }",
+    "U8 ::= SEQUENCE { id C1.&id ({}), val C1.&Type ({}{@id}) }",
+    "U9 ::= SEQUENCE { id C1.&id ({o1}), val C1.&Type ({o1 | o2}{@id}) }",
     "T1 ::= TIME",
     "T2 ::= REAL",
     "T3 ::= DATE",
@@ -423,6 +431,16 @@ pub fn gen_case(seed: u64, idx: u64, corpus: &Corpus, prefixes: &[(usize, usize)
                 s.push(pick_char(&mut rng));
             }
             Case { cat: "open-at-eof", input: s, origin: String::new() }
+        }
+        19 if rng.chance(1, 2) => {
+            // grammar-generated module sets (several modules, imports of types and of values whose governing type is *not*
+            // imported, recursion, nesting): the linker's cross-module bookkeeping
+            let set = if rng.chance(1, 3) {
+                crate::gen::assoc_import_set(&mut rng)
+            } else {
+                crate::gen::random_set(seed, 808, idx, &crate::gen::GenOpts { modules: (2, 4), assigns: (1, 6), max_depth: 2, max_comps: 4, structured_values: true, qualified_refs: true, ..crate::gen::GenOpts::default() })
+            };
+            Case { cat: "generated-module-set", input: set.render().text, origin: String::new() }
         }
         18 => {
             // moderately deep nesting (the extreme depths are the fixed `deep-nesting` cases below the random range)
